@@ -59,6 +59,7 @@ type Exec struct {
 	topVars      map[string]Value
 	resumeHeader *ssa.BasicBlock
 	keepTopFrame bool
+	noCheck      int
 	inputs       []namedTerm
 	fnNotes      map[string][]string
 	pathTrace    []string
@@ -103,6 +104,12 @@ func fnName(fn *ssa.Function) string {
 	s = strings.ReplaceAll(s, "(", "")
 	s = strings.ReplaceAll(s, ")", "")
 	s = strings.ReplaceAll(s, "*", "")
+	// sub-packages are keyed by their package name: client/cli.parseAddress -> cli.parseAddress
+	if i := strings.Index(s, "."); i > 0 {
+		if j := strings.LastIndex(s[:i], "/"); j >= 0 {
+			s = s[j+1:]
+		}
+	}
 	return s
 }
 
@@ -608,10 +615,19 @@ func (ex *Exec) derefCheck(st *State, p VPtr, at ssa.Instruction) {
 	}
 }
 
+// specLoad reads through a pointer for contract evaluation: no safety obligation is generated.
+func (ex *Exec) specLoad(st *State, p Value) Value {
+	ex.noCheck++
+	defer func() { ex.noCheck-- }()
+	return ex.load(st, p, nil)
+}
+
 func (ex *Exec) load(st *State, p Value, at ssa.Instruction) Value {
 	switch pp := p.(type) {
 	case VPtr:
-		ex.derefCheck(st, pp, at)
+		if ex.noCheck == 0 {
+			ex.derefCheck(st, pp, at)
+		}
 		if st.infeasible() {
 			return VOpaque{"dead"}
 		}
